@@ -40,10 +40,45 @@ GC_CONFIGS = [("default", {}), ("none", {"gc": 0}), ("gc:1", {"gc": 1}), ("gc:2"
               ("gc:7", {"gc": 7}), ("gc:50", {"gc": 50})]
 
 
+def churn_programs():
+    """Access sites that meet objects of many short-lived shapes: whatever the engine keys on a freed shape (caches,
+    weak tables) meets recycled allocations when collections fall between two executions of the site."""
+    J = jscore
+    I, S, n = J.ident, J.string, J.num
+    out = []
+    layouts = [("ax", [("a", 0), ("x", 1)]), ("xb", [("x", 1), ("b", 0)]), ("yxz", [("y", 0), ("x", 1), ("z", 0)]), ("x", [("x", 1)])]
+
+    def mk(tag, keys, r):
+        return J.obj(*[J.prop(k, J.binary("+", S(tag + k), r) if isx else r) for k, isx in keys])
+    for form in ("get", "set", "proto", "method"):
+        body = []
+        for tag, keys in layouts:
+            o = mk(tag, keys, I("r"))
+            if form == "get":
+                body += [J.let("o" + tag, o), J.print_(J.call(I("g"), I("o" + tag))), J.expr(J.assign(I("o" + tag), J.null()))]
+            elif form == "set":
+                body += [J.let("o" + tag, o), J.expr(J.call(I("s"), I("o" + tag), I("r"))), J.print_(J.member(I("o" + tag), "x"), J.member(I("o" + tag), "w")),
+                         J.expr(J.assign(I("o" + tag), J.null()))]
+            elif form == "proto":
+                body += [J.let("p" + tag, o), J.let("c" + tag, J.call(I("mkc"), I("p" + tag))),
+                         J.print_(J.call(I("g"), I("c" + tag))), J.expr(J.assign(I("p" + tag), J.null())), J.expr(J.assign(I("c" + tag), J.null()))]
+            else:
+                body += [J.let("m" + tag, J.obj(*([J.prop(k, I("r")) for k, isx in keys if not isx] + [J.prop("x", J.fn([], [J.return_(J.binary("+", S(tag), I("r")))]))]))),
+                         J.print_(J.call(I("c"), I("m" + tag))), J.expr(J.assign(I("m" + tag), J.null()))]
+        prog = [J.function("g", J.params("o"), [J.return_(J.member(I("o"), "x"))]),
+                J.function("s", J.params("o", "v"), [J.expr(J.assign(J.member(I("o"), "w"), I("v"))), J.expr(J.assign(J.member(I("o"), "x"), I("v")))]),
+                J.function("c", J.params("o"), [J.return_(J.call(J.member(I("o"), "x")))]),
+                J.function("mkc", J.params("p"), [J.function("K", [], []), J.expr(J.assign(J.member(I("K"), "prototype"), I("p"))), J.return_(J.new(I("K")))]),
+                J.for_(J.let("r", n(0)), J.binary("<", I("r"), n(6)), J.update("++", False, I("r")), J.block(*body))]
+        out.append(("churn/" + form, J.program(prog)))
+    return out
+
+
 def spec(tier):
     cfgs = GC_CONFIGS if tier == "thorough" else [c for c in GC_CONFIGS if c[0] in ("default", "none", "gc:1", "gc:3", "gc:50")]
     s = cfgdiff.Spec("C10", cfgs, "none", "c10", "no forced collection", {"quick": 250, "thorough": 1200})
     s.quick_grid, s.quick_corpus = 300, 150
+    s.extra_items = churn_programs()
     return s
 
 
